@@ -38,12 +38,14 @@ static std::string trim_ws(const std::string &s) {
   return s.substr(a, b - a + 1);
 }
 
-static void dump(std::ostream &o, const Property &p, bool attrs) {
+// attrs: 0 none, 1 all, 2 all but the (bulky) help texts
+static void dump(std::ostream &o, const Property &p, int attrs) {
   o << "{\"n\":\"" << vfh::jesc(p.name()) << "\",\"v\":\"" << vfh::jesc(p.value()) << "\"";
   if (attrs) {
     o << ",\"a\":{";
     bool f = true;
     for (auto it = p.firstAttribute(); it != p.lastAttribute(); ++it) {
+      if (attrs == 2 && it->first == "help") continue;
       if (!f) o << ",";
       f = false;
       o << "\"" << vfh::jesc(it->first) << "\":\"" << vfh::jesc(it->second) << "\"";
@@ -193,7 +195,7 @@ static int mode_merge(const vfh::Args &A) {
                     J().s("id", id).s("calc", calc).s("user_file", file).s("tree", dumps(res, false)));
       }
       o << "\"ok\":true,\"tree\":";
-      dump(o, res, kind == "C");
+      dump(o, res, kind == "C" ? 1 : 2);  // user attributes below unchecked sections are judged
     } else {
       R.counter("driver_errors");
       o << "\"ok\":false,\"err\":\"" << vfh::jesc(err) << "\"";
